@@ -102,13 +102,9 @@ def classify(case):
     names = case.get("diag_names") or ["", "", ""]
     cons = case.get("construct") or [0, 0, 0]
 
-    # F3: `--` in code position; the program has a minus sign.  Residual class (open): the negated operand is a negative
-    # number literal or an s-string whose text starts with `-`; anything else is the repaired neg-of-neg class.
+    # F3 / N11: `--` in code position while the program has a minus sign.  Both classes are repaired (148aed7: neg of neg;
+    # 2f7a440: negative literal / s-string operand): a fixed id is returned, which the framework reports as a VIOLATION.
     if "--" in code and "-" in src:
-        if re.search(r"--\d", code) and re.search(r"-\s*\d", src):
-            return "C07-N11-double-minus-literal"
-        if re.search(r's"-', src):
-            return "C07-N11-double-minus-literal"
         return "F03-double-minus"
     if kind == "ops":
         return None
@@ -187,10 +183,6 @@ def classify(case):
     # N2: loop whose step is split: recursive reference inside a derived table
     if "loop" in src and ("WITH RECURSIVE" in code or (d == "mssql" and re.search(r"\bWITH\b", code))) and ((kind == "sqlite" and "circular reference" in msg) or (kind == "scope" and diag[0] == 2)):
         return "C07-N2-recursive-ref-in-subquery"
-    # N3: INTERVAL literal where the engine has none
-    if d in ("sqlite", "mssql") and INTERVAL_LIT.search(src) and "INTERVAL" in code:
-        if (kind == "dialect" and cons == [15, 0, 0]) or (kind == "sqlite" and "syntax error" in msg):
-            return "C07-N3-interval-literal"
     # N4: generated names starting with `_` are not regular identifiers of standard SQL
     if d == "ansi" and kind == "parse" and re.search(r"(?<![A-Za-z0-9_])_[A-Za-z0-9_]+", code) and case.get("parses_when_underscore_idents_quoted"):
         return "C07-N4-ansi-underscore-identifier"
@@ -204,13 +196,6 @@ def classify(case):
         if (both_stars or one_star) and unused_result:
             if kind in ("parse", "sqlite") or (kind == "scope" and diag[0] in (4, 5)):
                 return "C07-N10-star-in-join-condition"
-    # N5: BigQuery has no EXCEPT ALL / INTERSECT ALL
-    if d == "bigquery" and kind == "dialect" and cons[0] == 6 and cons[1] in (1, 2) and cons[2] == 0 \
-            and (re.search(r"\b(remove|intersect)\b", src) or ("join" in src and re.search(r"\b(INTERSECT|EXCEPT) ALL\b", code))):
-        return "C07-N5-bigquery-except-all"
-    # N6: T-SQL has no RECURSIVE keyword
-    if d == "mssql" and kind == "dialect" and cons == [9, 0, 0] and "loop" in src:
-        return "C07-N6-mssql-with-recursive"
     # N9: T-SQL has no boolean literals: `true` / `false` are read as column names
     if d == "mssql" and kind == "scope" and diag[0] == 3 and (names[1] or "").lower() in ("true", "false") and re.search(r"(?i)\b(true|false)\b", code):
         return "C07-N9-mssql-boolean-literal"
